@@ -14,7 +14,7 @@ RULE = (
     "instants from a 12-slot grid and durations from {0,1,2,3 s} (occasionally 1 d, 25 h, 30 d) so equal timestamps, equal end instants and zero-length events are frequent; data from {A,B,C} "
     "plus occasional rich JSON. The same history runs on memory, sqlite and peewee. Oracle: reference list model per bucket with learnt ids; after EVERY "
     "operation get(-1) as a multiset of (id, instant, duration, data) == model, ids distinct, get_by_id agrees for every live id and is None for dead / foreign "
-    "ids, get_eventcount() == model size; replace_last must rewrite exactly the event a limit-1 read returned immediately before; id-erased contents agree "
+    "ids, get_eventcount() == model size; the limit-1 read before a replace_last must return an event with the greatest timestamp and replace_last must rewrite exactly that event; id-erased contents agree "
     "across backends for as long as their limit-1 reads agreed. Non-trivial = a replace_last or upsert_many after a delete, or after a tie (two live events with "
     "equal timestamp or equal end instant) has arisen."
 )
@@ -173,6 +173,8 @@ class _Run:
                         if len(last) != 1 or last[0].id not in m:
                             self.fail(step, f"limit-1 read on a non-empty bucket returned {last!r}")
                         lid = last[0].id
+                        if m[lid][0] != max(c[0] for c in m.values()):  # a list model's limit-1 read returns a newest event (which one among equals is free)
+                            self.fail(step, f"limit-1 read returned event {lid} at {m[lid][0] - BASE_US} us although the bucket holds a newer one: {sorted((c[0] - BASE_US, i) for i, c in m.items())}")
                         self.choices.append(uid[lid])  # which event (creation order), not merely its content
                         with sut(f"{be}: step {step} replace_last"):
                             b.replace_last(_mk(Event, op["e"]))
